@@ -188,6 +188,18 @@ def generate():
         ("deal_n", Qn + r"deal_n_continuously\s*\(", 0), ("deal_n_comp", Qn + r"deal_n_continuously\s*\(", 1),
         ("try_deal_n", Qn + r"try_deal_n_continuously\s*\(", 0)]:
         items.append(_str_def("src_" + name, ft(rx, nth)))
+    # the scheduling interface the futex calls go through (sched_interface.hpp): signature + body from the `inline` keyword
+    sched = resolve_ifs(SCHED, extra=["-fsanitize=thread"])
+    def sched_text(rx):
+        body = function_body(sched, rx)
+        m0 = re.search(rx, sched)
+        start = sched.rfind("inline", 0, m0.start())
+        return _norm(sched[start:sched.index(body, m0.start()) + len(body)])
+    for name in ("futex_wait", "futex_wake_one", "futex_wake_all", "usleep", "yield"):
+        items.append(_str_def("src_sched_" + name, sched_text(r"SchedInterface::" + name + r"\s*\(")))
+    fx = r"Futex<\s*S,\s*typename\s*::std::enable_if<!S::futex_need_create\(\)>::type>::\s*"
+    items.append(_str_def("src_futex_wait", _norm(function_body(sched, fx + r"wait\s*\("))))
+    items.append(_str_def("src_futex_wake_all", _norm(function_body(sched, fx + r"wake_all\s*\("))))
     items.append(_str_def("src_push", _norm(last(Qn + r"push\s*\(\s*C\s*&&"))))
     items.append(_str_def("src_pop", _norm(last(Qn + r"pop\s*\(\s*C\s*&&"))))
     # template flags at the internal call sites of the default (flag-less) overloads and of clear()
